@@ -97,8 +97,16 @@ func (s *SpokFile) buildGraph(requested ...string) (*dag.Graph[string, task.Task
 	// DAG of tasks using the name as the unique id
 	graph := dag.New[string, task.Task]()
 
-	// TODO: Make this recursive so it will go through dependencies of dependencies
-	for _, name := range requested {
+	// Work through the requested tasks and (transitively) everything they depend on
+	queue := append([]string{}, requested...)
+	seen := make(map[string]bool, len(s.Tasks))
+	for len(queue) != 0 {
+		name := queue[0]
+		queue = queue[1:]
+		if seen[name] {
+			continue
+		}
+		seen[name] = true
 		requestedTask, ok := s.Tasks[name]
 		if !ok {
 			closest := s.findClosestMatch(name)
@@ -130,6 +138,11 @@ func (s *SpokFile) buildGraph(requested ...string) (*dag.Graph[string, task.Task
 				return nil, err
 			}
 			s.logger.Debug("Task %s depends on task %s", requestedTask.Name, depTask.Name)
+			if dep == name {
+				return nil, fmt.Errorf("Task %q depends on itself", name)
+			}
+			// The dependency's own dependencies need looking at too
+			queue = append(queue, dep)
 			if !graph.ContainsVertex(dep) {
 				err := graph.AddVertex(dep, depTask)
 				if err != nil {
@@ -173,6 +186,10 @@ func (s *SpokFile) Run(stream iostream.IOStream, runner shell.Runner, force bool
 	runOrder, err := dag.Sort()
 	if err != nil {
 		return nil, err
+	}
+	if len(runOrder) != dag.Order() {
+		// The sort silently leaves out any task that is part of a cycle
+		return nil, errors.New("task dependency graph contains a cycle and cannot be sorted")
 	}
 	names := make([]string, 0, len(runOrder))
 	for _, taskToRun := range runOrder {
